@@ -11,9 +11,43 @@ import (
 	"github.com/tetratelabs/wazero/internal/wasm"
 )
 
+// vectorCap returns how many elements to allocate up front for a vector that declares n of them: never
+// more than the bytes left in r. Every element of every vector occupies at least one byte, so a vector
+// that declares more fails while its elements are decoded; capping the allocation keeps the memory used
+// by the decoder proportional to the size of the input instead of to a number the input merely states.
+func vectorCap(n uint32, r *bytes.Reader) uint32 {
+	if remaining := r.Len(); uint64(n) > uint64(remaining) {
+		return uint32(remaining)
+	}
+	return n
+}
+
+// elementAt returns the address of the i-th element of a vector allocated with vectorCap. i == len(*v)
+// happens only when the declared size exceeded the input: the vector then grows by the one element
+// whose decoding is going to fail.
+func elementAt[T any](v *[]T, i uint32) *T {
+	if int(i) == len(*v) {
+		*v = append(*v, *new(T))
+	}
+	return &(*v)[i]
+}
+
+// shortRead returns what io.ReadFull reports when fewer bytes than requested are left in r, without
+// allocating a buffer for the requested size.
+func shortRead(r *bytes.Reader) error {
+	if n, _ := io.Copy(io.Discard, r); n == 0 {
+		return io.EOF
+	}
+	return io.ErrUnexpectedEOF
+}
+
 func decodeValueTypes(r *bytes.Reader, num uint32) ([]wasm.ValueType, error) {
 	if num == 0 {
 		return nil, nil
+	}
+
+	if uint64(num) > uint64(r.Len()) {
+		return nil, shortRead(r)
 	}
 
 	ret := make([]wasm.ValueType, num)
@@ -43,6 +77,10 @@ func decodeUTF8(r *bytes.Reader, contextFormat string, contextArgs ...interface{
 
 	if size == 0 {
 		return "", uint32(sizeOfSize), nil
+	}
+
+	if uint64(size) > uint64(r.Len()) {
+		return "", 0, fmt.Errorf("failed to read %s: %w", fmt.Sprintf(contextFormat, contextArgs...), shortRead(r))
 	}
 
 	buf := make([]byte, size)
